@@ -157,13 +157,18 @@ def oracle(ctx):
         out = []
         for args in (['--dry-run', '--no-kmsg-log'], ['--no-kmsg-log'], ['--no-kmsg-log', '-v']):   # (without --no-kmsg-log the report goes to the kernel log)
             rc, so, se = e2e.run_binary(args + [os.path.join(base, 'out')], os.path.join(base, 'src'))
-            out.append((args, rc, se))
+            # "no service is generated for it": nothing printed for it in a dry run, no file for it after a normal run
+            gen = ('bad-unit' in so) if '--dry-run' in args else any(f.startswith('bad-unit') for f in (os.listdir(os.path.join(base, 'out')) if os.path.isdir(os.path.join(base, 'out')) else []))
+            out.append((args, rc, se + ('\n[SERVICE-GENERATED]' if gen else '')))
         shutil.rmtree(base, ignore_errors=True)
         return out
     for (depth, ty, nm), runs in zip(deep, e2e.pmap(run_deep, deep)):
         for args, rc, se in runs:
             res.oracle_evals += 1
             errs = [l for l in se.split('\n') if 'ERROR' in l]
+            if '[SERVICE-GENERATED]' in se:
+                res.oracle_failures.append(dict(op='e2e ' + ' '.join(args), input=dict(unit_type=ty, key=nm, directory_depth=depth), impl_output=dict(exit=rc),
+                                                oracle_expectation=f'no service is generated for bad-unit.{ty} (undocumented key {nm!r})'))
             if rc != 1 or not any(f"'{nm}'" in l and 'bad-unit.' + ty in l for l in errs):
                 res.oracle_failures.append(dict(op='e2e ' + ' '.join(args), input=dict(unit_type=ty, key=nm, directory_depth=depth, path_bytes=depth * 240),
                                                 impl_output=dict(exit=rc, errors=[l[:200] + ' … ' + l[-200:] if len(l) > 420 else l for l in errs][:3]),
